@@ -33,6 +33,8 @@ type Document struct {
 	nextImageID int
 	// 脚注/尾注管理器（每个文档独立，按需创建）
 	footnoteManager *FootnoteManager
+	// 编号管理器（每个文档独立，按需创建）
+	numberingManager *NumberingManager
 }
 
 // Body 表示文档主体
